@@ -87,7 +87,7 @@ Hint Resolve hk_clock_tick : keeps.
 
 Lemma hk_continue_loop fuel : K (continue_loop I sw fuel).
 Proof.
-  induction fuel as [|n IH]; cbn [continue_loop]; [apply keeps_fail|].
+  induction fuel as [|n IH]; cbn [continue_loop]; [apply keeps_panic|].
   intros w. pose proof (hk_continue_single_step w) as H1.
   destruct (continue_single_step I sw w) as [[ends|k m|site] w']; cbn [snd] in *; [| |exact H1].
   - destruct ends; [exact H1|].
